@@ -125,7 +125,13 @@ pub fn make_sig_err(k: Kind, msg: &str) -> SignatureError {
     let m = msg.to_string();
     match k {
         Kind::ExpiredToken => SignatureError::ExpiredToken(m),
-        Kind::IO => SignatureError::IO(std::io::Error::new(std::io::ErrorKind::Other, m)),
+        Kind::IO => {
+            // the io::ErrorKind varies with the message so that every kind is exercised
+            use std::io::ErrorKind::*;
+            const KINDS: [std::io::ErrorKind; 10] = [Other, NotFound, PermissionDenied, ConnectionReset, UnexpectedEof, TimedOut, WouldBlock, Interrupted, BrokenPipe, InvalidData];
+            let k = KINDS[(crate::model::crypto::fnv64(m.as_bytes()) % 10) as usize];
+            SignatureError::IO(std::io::Error::new(k, m))
+        }
         Kind::InternalServiceError => SignatureError::InternalServiceError(m.into()),
         Kind::InvalidBodyEncoding => SignatureError::InvalidBodyEncoding(m),
         Kind::InvalidClientTokenId => SignatureError::InvalidClientTokenId(m),
@@ -192,7 +198,19 @@ pub fn build_principal(spec: &PrincipalSpec) -> Principal {
 pub fn build_session(s: &[(String, String)]) -> SessionData {
     let mut d = SessionData::new();
     for (k, v) in s {
-        d.insert(k, SessionValue::from(v.as_str()));
+        // the textual value selects the SessionValue variant so that every variant is exercised
+        let val = if v == "@null" {
+            SessionValue::Null
+        } else if v == "true" || v == "false" {
+            SessionValue::from(v == "true")
+        } else if let Ok(i) = v.parse::<i64>() {
+            SessionValue::from(i)
+        } else if let Ok(ip) = v.parse::<std::net::IpAddr>() {
+            SessionValue::from(ip)
+        } else {
+            SessionValue::from(v.as_str())
+        };
+        d.insert(k, val);
     }
     d
 }
@@ -397,6 +415,11 @@ thread_local! {
 pub fn install_quiet_panic_hook() {
     std::panic::set_hook(Box::new(|info| {
         let loc = info.location().map(|l| format!("{}:{}", l.file(), l.line()));
+        // panics of the crate under test are expected and caught; a panic in the harness's own code is not
+        let own = loc.as_deref().map(|l| l.starts_with("src/") && !l.starts_with("src/lib")).unwrap_or(false) && !loc.as_deref().unwrap_or("").contains("/repo/");
+        if own || std::env::var("VERIF_DEBUG").is_ok() {
+            eprintln!("harness panic: {}", info);
+        }
         LAST_PANIC_LOC.with(|c| *c.borrow_mut() = loc);
     }));
 }
